@@ -291,7 +291,7 @@ def check(case):
     pos = [[] for _ in units]          # for each unit: index in prog of each of its steps
     scr = list(case["scribble"])
     owner = []
-    for pick in case["order"] + list(range(len(units))) * 12:
+    for pick in case["order"] + list(range(len(units))) * 40:      # (every unit runs to its end: the longest has 17 steps)
         u = pick % len(units)
         lines, keys, nxt = per_unit[u]
         if nxt >= len(lines):
